@@ -6,6 +6,7 @@ import (
 	"sort"
 	"strconv"
 	"strings"
+	"time"
 
 	"github.com/cosmos/cosmos-sdk/codec"
 	sdk "github.com/cosmos/cosmos-sdk/types"
@@ -338,7 +339,22 @@ func (C07) Apply(env world.Env, mm mc.Model, ev string) mc.Step {
 	return st
 }
 
+// c07DropEnum: fixed histories in which several plan-paid files - of one owner, of two owners - are left without
+// provers and are dropped together by one reward block (the search reaches one dropped file at most).
+func c07DropEnum() mc.Enum {
+	nb := rep("NextBlock", 6)
+	buy := []string{"Buy:U1:2", "Buy:U2:2"}
+	return pathEnum("C07", "C07/drop-paths", C07{}, [][]string{
+		cat(buy, []string{"Post:U1:400:1", "Post:U1:600:1"}, nb),
+		cat(buy, []string{"Post:U1:400:2", "Post:U1:600:1", "Post:U2:400:1"}, nb),
+		cat(buy, []string{"Post:U1:400:1", "Post:U2:400:1", "Post:U1:600:2", "Post:U2:600:1"}, nb),
+		cat(buy, []string{"Post:U1:400:1", "NextBlock", "Post:U1:600:1", "Post:U1:400:1"}, nb),
+		cat(buy, []string{"Post:U1:400:1", "PostOnce:U1:400:1", "Post:U1:600:1"}, nb),
+	})
+}
+
 func init() {
+	CaseReplayers["C07/drop-paths"] = func(r *mc.Run, c string) { r.ReplayCase(c07DropEnum(), c) }
 	regScenario(C07{})
 	regScenario(C07{Seeded: true})
 	Props["C07"] = Prop{Level: "model_checking", Run: func(r *mc.Run, tier string) {
@@ -347,5 +363,7 @@ func init() {
 		r.AddExplore(C07{}, opts(tier, 5, 9, 60, 1200, 150, 2000))
 		r.Rules = append(r.Rules, "seeded variant: from a pay-once file (whose Merkle root sorts first) and a plan-paid file of another account, each with a prover, BFS over proofs, deletes by the owners and up to 7 one-day blocks (provers lapse, files are dropped)")
 		r.AddExplore(C07{Seeded: true}, opts(tier, 9, 12, 30, 300, 40, 300))
+		r.Rules = append(r.Rules, "drop paths: 5 fixed histories of 10-12 steps in which two to four plan-paid files of one or two owners are left without provers and dropped together by one reward block, every step judged by the same oracle")
+		r.AddEnum(c07DropEnum(), workers(), time.Time{})
 	}}
 }
